@@ -530,6 +530,8 @@ fn run_random_shard(
         ..Default::default()
     });
     let herr: RefCell<Option<String>> = RefCell::new(None);
+    // the first failing case as generated (kept in case the shrunk one does not reproduce, e.g. timing dependent)
+    let first: RefCell<Option<(Vec<u32>, Fail)>> = RefCell::new(None);
     let config = Config {
         cases: cases as u32,
         failure_persistence: None,
@@ -546,7 +548,11 @@ fn run_random_shard(
             CaseOutcome::Ok => Ok(()),
             CaseOutcome::Violation(f) => {
                 st.counting = false;
-                Err(TestCaseError::fail(f.signature))
+                let sig = f.signature.clone();
+                if first.borrow().is_none() {
+                    *first.borrow_mut() = Some((tape.clone(), f));
+                }
+                Err(TestCaseError::fail(sig))
             }
             CaseOutcome::HarnessError(e) => {
                 st.counting = false;
@@ -573,12 +579,15 @@ fn run_random_shard(
                     })
                 }
                 _ => {
-                    violation = Some(Violation {
-                        section: section.to_string(),
-                        signature: "unstable-failure".into(),
-                        tape,
-                        detail: json!("failure did not reproduce on the shrunk tape"),
-                    })
+                    // not reproducible on the shrunk tape: report the failure as first observed
+                    let _ = tape;
+                    if let Some((t0, f0)) = first.into_inner() {
+                        let mut d = f0.detail;
+                        if let Value::Object(m) = &mut d {
+                            m.insert("note".into(), json!("observed once; did not reproduce while shrinking (schedule dependent)"));
+                        }
+                        violation = Some(Violation { section: section.to_string(), signature: f0.signature, tape: t0, detail: d })
+                    }
                 }
             }
         }
